@@ -26,6 +26,7 @@ typedef struct { int pid; int64_t prio; double etime; } gent;
 #define MAXGENT 48
 static gent gbefore[MAXGUARD][MAXGENT]; static int ngbefore[MAXGUARD];
 static uint64_t pool_before[MAXPOOL][MAXP];
+static uint64_t pool_evstart[MAXPOOL][MAXP];   /* holdings when the current event began */
 static double t_before;
 static uint32_t main_csr;
 static bool cond_observes[MAXCOND][MAXGUARD];
@@ -75,7 +76,7 @@ void mon_before_event(void)
     t_before = tnow();
     for (int g = 0; g < W.nguards; g++) ngbefore[g] = snapshot_guard(g, gbefore[g]);
     for (int p = 0; p < W.npool; p++)
-        for (int i = 0; i < W.np; i++) pool_before[p][i] = cmb_resourcepool_held_by_process(W.pool[p], PR[i].pp);
+        for (int i = 0; i < W.np; i++) pool_evstart[p][i] = pool_before[p][i] = cmb_resourcepool_held_by_process(W.pool[p], PR[i].pp);
     for (int i = 0; i < W.np; i++) { PR[i].ran_this_event = false; PR[i].named_this_event = false; PR[i].prio_touched_this_event = false; prio_ref[i] = PR[i].pp->priority; }
     last_runner = -1;
     ev_seq = W.seq;
@@ -732,6 +733,15 @@ void mon_after_event(void)
         if (cmb_process_exit_value(pr->pp) != pr->exitv) viol("C09", "exit-value", "process %d exit value %p, expected %p", i, cmb_process_exit_value(pr->pp), pr->exitv);
         for (int g = 0; g < W.nguards; g++) if (in_guard(g, pr)) viol("C09", "still-in-waiting-list", "ended process %d is still in the waiting list of a %s", i, gcname(W.guards[g].cls));
         if (!cmi_slist_is_empty(&pr->pp->resources)) viol("C09", "holdings-not-released", "ended process %d still has entries in its own list of holdings", i);
+        /* "everything it held is released": the units it held count as in use no longer, nobody else's do */
+        for (int p = 0; p < W.npool; p++) {
+            uint64_t sum = 0;
+            for (int k = 0; k < W.np; k++) sum += cmb_resourcepool_held_by_process(W.pool[p], PR[k].pp);
+            if (cmb_resourcepool_held_by_process(W.pool[p], pr->pp) != 0 || (pool_evstart[p][i] > 0 && cmb_resourcepool_in_use(W.pool[p]) != sum))
+                viol("C09", "units-not-returned", "process %d ended holding %" PRIu64 " units of pool %d; afterwards the pool counts %" PRIu64 " in use while the living processes hold %" PRIu64, i, pool_evstart[p][i], p, cmb_resourcepool_in_use(W.pool[p]), sum);
+        }
+        for (int r = 0; r < W.nres; r++)
+            if (W.res[r]->holder == pr->pp) viol("C09", "resource-not-released", "ended process %d is still the holder of resource %d", i, r);
         if (!pr->start_pending) {
             const uint64_t n = cmb_event_pattern_count(CMB_ANY_ACTION, pr->pp, CMB_ANY_OBJECT);
             if (n != 0) viol("C09", "event-pending-for-ended-process", "%" PRIu64 " event(s) addressed to process %d are still scheduled right after the event in which it ended (t=%g)", n, i, now);
